@@ -1,6 +1,7 @@
 package c09
 
 import (
+	"verifharness/evid"
 	"encoding/binary"
 	"fmt"
 	"os"
@@ -242,7 +243,16 @@ const (
 	probePinned  = "pinned"  // an address that is no longer (or was never) assigned stays served while a connected socket's route references it
 )
 
+// knownID maps a probe class to the finding that records it in
+// KNOWN_FINDINGS.json: while the finding is listed as known the class is
+// excluded by construction and counted; once it is no longer listed (repaired)
+// the pure oracle applies to it again.
+var knownID = map[string]string{probeNICPrec: "F21", probePinned: "F22"}
+
 func probing(class string) bool {
+	if !evid.IsKnownListed(knownID[class]) {
+		return true
+	}
 	v := os.Getenv("C09_PROBE")
 	if v == "all" {
 		return true
